@@ -116,6 +116,38 @@ class ModuleInfo:
             raise AnalysisError(f"anchor vanished: class {self.name}.{local}") from None
 
 
+def _fold_returned_temporaries(tree: ast.AST) -> None:
+    """`t = <expr>` immediately followed by `return t`, t a plain local bound nowhere else in
+    the function, is read as `return <expr>`: the two spellings return the same value and no rule
+    should tell them apart. (The package itself never writes the first form -- its linter folds
+    it -- so on the tree as it stands this changes nothing; it is what makes a rule that reads a
+    `return` indifferent to a result being given a name first.)"""
+    for fn in ast.walk(tree):
+        if not isinstance(fn, (ast.FunctionDef, ast.AsyncFunctionDef)):
+            continue
+        stores: dict[str, int] = {}
+        loads: dict[str, int] = {}
+        for n in ast.walk(fn):
+            if isinstance(n, ast.Name):
+                d = stores if isinstance(n.ctx, (ast.Store, ast.Del)) else loads
+                d[n.id] = d.get(n.id, 0) + 1
+        params = {a.arg for a in fn.args.posonlyargs + fn.args.args + fn.args.kwonlyargs} | ({fn.args.vararg.arg} if fn.args.vararg else set()) | ({fn.args.kwarg.arg} if fn.args.kwarg else set())
+        for holder in ast.walk(fn):
+            for field in ("body", "orelse", "finalbody"):
+                body = getattr(holder, field, None)
+                if not isinstance(body, list):
+                    continue
+                i = 0
+                while i + 1 < len(body):
+                    a, b = body[i], body[i + 1]
+                    if isinstance(a, ast.Assign) and len(a.targets) == 1 and isinstance(a.targets[0], ast.Name) and isinstance(b, ast.Return) and isinstance(b.value, ast.Name) \
+                            and b.value.id == a.targets[0].id and stores.get(b.value.id) == 1 and loads.get(b.value.id) == 1 and b.value.id not in params:
+                        b.value = a.value
+                        del body[i]
+                        continue
+                    i += 1
+
+
 def _set_parents(tree: ast.AST) -> None:
     for node in ast.walk(tree):
         for child in ast.iter_child_nodes(node):
@@ -166,6 +198,7 @@ class Program:
             tree = ast.parse(src, filename=rel)
         except SyntaxError as e:
             raise AnalysisError(f"cannot parse {rel}: {e}") from None
+        _fold_returned_temporaries(tree)
         _set_parents(tree)
         mi = ModuleInfo(
             name=name,
